@@ -18,6 +18,7 @@ import KojenVerif.Lemmas.EngineWF
 import KojenVerif.Lemmas.EngineNestedWF
 import KojenVerif.Lemmas.EngineProto
 import KojenVerif.Lemmas.EngineSecondWF
+import KojenVerif.Lemmas.EngineLoadWF
 /-
   Line-protocol driver: one JSON object per input line, one JSON object per output line.
   Run with `lake env lean --run Driver/Main.lean`.  The harness pipes the same inputs to the
@@ -634,6 +635,11 @@ def handle (j : Json) : Except String Json := do
     let mut pblocksOk := 0
     let mut filesN := 0
     let mut filesOk := 0
+    -- the whole front half of the generator (C17_generate): is this input inside its grammar?
+    let ut ← (match j.getObjVal? "userTags" with | .ok v => asStrPairs v | .error _ => pure [])
+    let chain := Spec.stripBrackets globals
+    let tfiles := files.map (fun its => ({ name := [], items := its } : Engine.TFile))
+    let genOk := (Engine.toPat chain == globals) && Engine.genOKB m chain ut tfiles
     for items0 in files do
       filesN := filesN + 1
       -- the file as the second filtering receives it (STATE_0 still to be replaced)
@@ -685,7 +691,8 @@ def handle (j : Json) : Except String Json := do
                       ("pgt_lines", n pgtLines), ("pgt_lines_ok", n pgtOk), ("pgt_lines_with_alternative", n pgtAlt),
                       ("pst_blocks", n pstBlocks), ("pst_blocks_ok", n pstOk),
                       ("struct_blocks", n pblocks), ("struct_blocks_ok", n pblocksOk),
-                      ("files", n filesN), ("files_second_filtering_ok", n filesOk)])
+                      ("files", n filesN), ("files_second_filtering_ok", n filesOk),
+                      ("generator_inputs", n 1), ("generator_inputs_ok", n (if genOk then 1 else 0))])
   | "vpp" => do
     let rows3 (k : String) : Except String (List (List Str)) := do
       (← (← j.getObjVal? k).getArr?).toList.mapM asStrs
